@@ -25,7 +25,7 @@ from ..logger_common import (FAM, ALL_TYPES, HEADER, run_impl, explore, oracle, 
 from .. import gen_logger
 
 THEOREMS = ["C17_gen_consts", "C17_refuted", "C17_refuted_crash", "C17_witnesses_are_stale", "C17_partial",
-            "C17_partial_run", "C17_partial_nonvacuous", "C17_raw_file", "C17_json_file", "C17_ql_file",
+            "C17_partial_run", "C17_sequential_handoff", "C17_partial_nonvacuous", "C17_sequential_nonvacuous", "C17_raw_file", "C17_json_file", "C17_ql_file",
             "C17_ql_file_single_write", "C17_ql_file_multi_write", "C17_partial_files"]
 THEOREMS_FIXED = ["C17_fixed_holds", "C17_fixed_token", "C17_fixed_on_witness"]
 FIX = VERIF / "fixes" / "C17_stale_write_finished.diff"
